@@ -442,6 +442,10 @@ class C10(Check):
         self._names = flat
         return {'CssVerif/Gen/C10Names.lean': text}
 
+    @staticmethod
+    def size(ctx, quick, thorough, search):
+        return search if ctx.tier_counts == 'search' else ctx.n(quick, thorough)
+
     def names(self, ctx):
         if not hasattr(self, '_names'):
             import gen.c10_names as T
@@ -477,7 +481,7 @@ class C10(Check):
             cases.append(('css', _toDOMname(n)))
             cases.append(('css', n))
             cases.append(('dom', _toDOMname(n)))
-        for _ in range(ctx.n(3000, 60000)):
+        for _ in range(self.size(ctx, 3000, 60000, 10000)):
             s = G.random_name(rng)
             cases.append(('dom', s))
             cases.append(('css', s))
@@ -489,7 +493,7 @@ class C10(Check):
                 s = ''.join(t)
                 cases.append(('dom', s))
                 cases.append(('css', s))
-        for t in itertools.product('aAbB-1', repeat=ctx.n(5, 6)):
+        for t in itertools.product('aAbB-1', repeat=self.size(ctx, 5, 6, 5)):
             s = ''.join(t)
             cases.append(('dom', s))
             cases.append(('css', s))
@@ -510,10 +514,12 @@ class C10(Check):
     def oracle_attr(self, ctx, cu, names):
         """every known property through its camel-case attribute: get/set/del == by CSS name (exhaustive)"""
         from cssutils.css import CSSStyleDeclaration
-        from cssutils.css.cssproperties import _toDOMname
         for n in names:
-            dom = _toDOMname(n)
+            dom = G.camel(n)           # independent of cssproperties._toDOMname
             w = {'property': n, 'attribute': dom}
+            if not isinstance(getattr(CSSStyleDeclaration, dom, None), property):
+                ctx.violate('every known property has a camel-case attribute', w, None)
+                continue
             ctx.case(key=('attr', n), nontrivial=('-' in n), kind='attr')
             a = CSSStyleDeclaration(validating=False)
             b = CSSStyleDeclaration(validating=False)
@@ -536,7 +542,7 @@ class C10(Check):
     # -- declaration block --------------------------------------------------------------------------
     def corr_decl(self, ctx, cu, names):
         rng = ctx.sub_rng('decl')
-        nseq = ctx.n(700, 30000)
+        nseq = self.size(ctx, 1500, 30000, 6000)
         batch = []
         for i in range(nseq):
             ops = G.gen_decl_ops(rng, names)
@@ -591,7 +597,7 @@ class C10(Check):
     # -- variables block ----------------------------------------------------------------------------
     def corr_vars(self, ctx, cu, names):
         rng = ctx.sub_rng('vars')
-        nseq = ctx.n(400, 15000)
+        nseq = self.size(ctx, 800, 15000, 3000)
         batch = []
         for i in range(nseq):
             batch.append(G.gen_var_ops(rng))
@@ -634,6 +640,12 @@ class C10(Check):
                     self.run_vars_batch(ctx, cu, [ops], rng)
                 else:
                     self.run_decl_batch(ctx, cu, [ops], rng, kind='corpus')
+
+    def search(self, ctx):
+        """an obligation or the correspondence broke: look for a concrete failing input with a larger sample"""
+        ctx.search_mode = True
+        ctx.tier_counts = 'search'
+        self.run(ctx)
 
     # -- known findings / replay -------------------------------------------------------------------
     def known(self, ctx, finding):
